@@ -35,6 +35,10 @@ VH = os.path.join(BIN, "vh")
 REC = os.path.join(BIN, "rec")
 
 EXIT_HELD, EXIT_VIOLATED, EXIT_INCONCLUSIVE = 0, 1, 2
+try:
+    QUICK_MULT = max(1, int(os.environ.get("VERIF_QUICK_MULT", "4")))
+except ValueError:
+    QUICK_MULT = 4
 
 
 class Inconclusive(Exception):
@@ -426,7 +430,13 @@ class Ctx:
         return self.tier == "quick"
 
     def scale(self, q, t):
-        return q if self.quick else t
+        """Tier-dependent parameter. Workload *counts* (integers >= 100) of the quick tier are multiplied by QUICK_MULT
+        (default 4; the quick tier then takes 5-25 s per property on 16 cores), never beyond the thorough value."""
+        if not self.quick:
+            return t
+        if isinstance(q, int) and not isinstance(q, bool) and q >= 100 and isinstance(t, int):
+            return min(q * QUICK_MULT, t)
+        return q
 
     def scratch(self, tag=None):
         d = mkscratch(tag or self.prop)
